@@ -65,6 +65,9 @@ def build(ctx, rng, n, symm, names, via_balance=False, sparse=False):
     P = gen.gen_pixels(rng, n, symm, ["dense", "sparse70", "sparse30", "emptyrows"][int(rng.integers(4))]
                        if not sparse else "sparse05")
     W = {nm: gen_weights(rng, n) for nm in names}
+    if rng.random() < 0.4:
+        # a weight column stored with an INTEGER dtype (e.g. raw integer bin coverage used as VC-style weights)
+        W[names[-1]] = rng.integers(1, 12, size=n).astype(np.int64)
     path = ctx.path()
     group = "/" if rng.random() < 0.6 or sparse else "/cells/c1"
     uri = path + ("::" + group if group != "/" else "")
@@ -86,8 +89,8 @@ def expected(D, wi, wj, divisive):
 
 def check_window(c, clr, D, rows, W, name, bal, div, w, symm):
     i0, i1, j0, j1 = w
-    divisive = div if div is not None else (name in ("KR", "VC", "VC_SQRT"))
-    wi, wj = W[name][i0:i1], W[name][j0:j1]
+    divisive = bool(div) if div is not None else (name in ("KR", "VC", "VC_SQRT"))
+    wi, wj = np.asarray(W[name][i0:i1], dtype=float), np.asarray(W[name][j0:j1], dtype=float)
     ref = expected(D[i0:i1, j0:j1], wi, wj, divisive)
     kw = dict(balance=bal)
     if div is not None:
@@ -118,7 +121,7 @@ def check_window(c, clr, D, rows, W, name, bal, div, w, symm):
     for join in (False, True):
         df = clr.matrix(as_pixels=True, join=join, **kw)[i0:i1, j0:j1]
         wantp = [r for r in rows if i0 <= r[0] < i1 and j0 <= r[1] < j1]
-        A = 1.0 / W[name] if divisive else W[name]
+        A = 1.0 / np.asarray(W[name], dtype=float) if divisive else np.asarray(W[name], dtype=float)
         refb = [v * A[i] * A[j] for i, j, v in wantp]
         gotb = df["balanced"].tolist()
         okp = len(gotb) == len(refb) and all(
@@ -175,8 +178,10 @@ def one_cooler(ctx, cid, rng, n, nsample):
             windows = sample_windows(rng, n, nsample)
         combos = []
         for nm in W:
-            for div in (None, True, False):
+            for div in (None, True, False, np.True_, 1, np.False_):      # the flag as h5py / numpy hand it over, too
                 combos.append((nm, div))
+        if any(np.asarray(v).dtype.kind in "iu" for v in W.values()):
+            c.feature("weights:integer-dtype-column")
         nw = 0
         ok = True
         for wi_, w in enumerate(windows):
@@ -202,6 +207,8 @@ def one_cooler(ctx, cid, rng, n, nsample):
             fp, _, gp = path.partition("::")
             for nm in list(W):
                 new = gen_weights(rng, n)
+                if np.asarray(W[nm]).dtype.kind in "iu":
+                    new = rng.integers(1, 12, size=n).astype(np.int64)       # an integer column stays one
                 with h5py.File(fp, "r+") as f:
                     g = f[gp or "/"]["bins"]
                     if nm == "balw":
